@@ -90,6 +90,10 @@ type CheckRec struct {
 type InfoRec struct {
 	Height  int64
 	AppHash []byte
+	// what this replica's own transcript says its last completed commit was when Info was asked
+	WantHeight int64
+	WantHash   []byte
+	Restarts   int
 }
 
 // Transcript is everything observed at one replica's ABCI surface.
@@ -203,7 +207,9 @@ func (ip *interposer) guard(what string, f func()) {
 
 func (ip *interposer) Info(req abci.RequestInfo) (res abci.ResponseInfo) {
 	ip.guard("Info", func() { res = ip.inner.Info(req) })
-	ip.r.Tr.Infos = append(ip.r.Tr.Infos, InfoRec{Height: res.LastBlockHeight, AppHash: append([]byte{}, res.LastBlockAppHash...)})
+	wh, whash := ip.r.Tr.LastCommitted()
+	ip.r.Tr.Infos = append(ip.r.Tr.Infos, InfoRec{Height: res.LastBlockHeight, AppHash: append([]byte{}, res.LastBlockAppHash...),
+		WantHeight: wh, WantHash: whash, Restarts: ip.r.Restarts})
 	return
 }
 
